@@ -95,17 +95,17 @@ def run(tier):
         ts += s
         rc, summ, out = lib.run_adapter([rt, "xmod", "misc", "--plugin", so])
         if rc != 0 or summ is None:
-            c.violation("arc scripts crashed %s (rc=%s)" % (label, rc), {"label": label})
+            c.violation("runtime-type scripts crashed %s (rc=%s)" % (label, rc), {"label": label})
         else:
             tb += summ["behaviours"]
             for f in summ["first_failures"][:2]:
-                c.violation("CArc created in the plugin %s: %s" % (label, f["msg"]), f)
+                c.violation("runtime types across modules %s: %s" % (label, f["msg"]), f)
     c.cov["module_pairs"] = labels
     c.assumptions += ["same OS, architecture and libc; 'different compiler' = the installed toolchains (stable 1.95, nightly, nightly-2026-08-21, 1.98.1)",
                       "every value is created inside the plugin (its own ledger allocator); contexts are created by the host; frees by the wrong module show up as unknown_free anomalies in the other module's ledger, leaks as a non-returning live count",
                       "known finding F2 (borrowed-child context leak) is tolerated here exactly as in C07 and reported there"]
     c.finish({"behaviours_replayed": tb, "replay_steps": ts, "exhaustive": False, "evaluations": tb, "distinct_nontrivial": n1 + min(n2, limit) + nv,
-              "rule": "per module pair: all CGlueObj behaviours of depth 2, a slice of simulated behaviours of depth 12, all Gen_CVec behaviours (u64), arc clone/drop-order scripts"})
+              "rule": "per module pair: all CGlueObj behaviours of depth 2, a slice of simulated behaviours of depth 12, all Gen_CVec behaviours (u64), arc clone/drop-order scripts, CVec/CSliceBox/CBox of strings made in one module and destroyed in the other, callbacks and iterators in every creator/user combination"})
 
 
 def replay(path):
